@@ -5,6 +5,14 @@ import json, subprocess
 HOOK_COMMITS = subprocess.run(["git","-C","/repo","log","--format=%H %s"],capture_output=True,text=True).stdout.splitlines()
 hooks = [l.split()[0] for l in HOOK_COMMITS if l.split(' ',1)[1].startswith("verif hooks")]
 CHECKS = {
+ "C02": dict(level="exploration", ref="4 C02",
+   text="Bounded-exhaustive over the boundary lattice (45 mnemonics x 1600 operand pairs x 11 register/alias patterns x 2 context kinds) plus millions of random operand/register/immediate/pc draws, each compared with two independently written oracles. Instruction semantics are pure functions of a few 32-bit operands, so lattice-exhaustive + random search against a reference is the natural decision procedure; 2^64 operand pairs cannot be enumerated, hence exploration.",
+   note="Trusted: the two oracles (ref.ALU and the 64-bit closed forms) as a transcription of RV32IM, cross-checked against each other on every case; div/rem by zero excluded (C07).",
+   technique="bounded-exhaustive lattice + rapid random differential testing against two independent RV32IM oracles"),
+ "C11": dict(level="exploration", ref="4 C11",
+   text="Totality of risc.Parse on arbitrary bytes, alphabet strings and grammar-directed mutations of valid programs (a panic is a violation), with every accepted text re-judged by an independent line grammar and per-line execution probes; generated programs under drawn formatting must be accepted, decode to their AST and be invariant under formatting (metamorphic). Native coverage-guided fuzzing of the same oracle in the thorough tier. The input space (all strings) is infinite, so this is exploration.",
+   note="Trusted: the independent line grammar and decoder in c11_test.go, the reference step function used by the probes. Accepted texts containing a line outside the oracle's grammar are judged for totality only (counted as outcome:accepted-ambiguous).",
+   technique="rapid grammar-based generation + mutation fuzzing with an independent line-grammar oracle and a metamorphic formatting relation; go native fuzzing in thorough"),
  "C16": dict(level="exploration", ref="4 C16",
    text="Quick: boundary lattice of byte values enumerated completely plus ~2M random patterns; thorough: every one of the 2^32 patterns enumerated in both directions (job 'exhaustive', reported with exhaustive:true in its job entry) — for a pure function of 32 bits complete enumeration is the strongest thing generated search can give and it is affordable.",
    note="Trusted: encoding/binary as the definition of little-endian; the Go compiler. The store/load sentence is checked through sw/lw Run on every quick pattern and on a 1/4096 stride of the exhaustive sweep.",
